@@ -52,3 +52,4 @@ MANIFEST = {
     "technique": "Lean 4 proof (accounting invariants by induction over buffering and request building, exact length lemmas) with differential "
                  "correspondence and an executable reference-decoder Spec evaluated on the implementation's bytes",
 }
+PENDING = True  # model being updated to fix commits e8757ce / c322dee
